@@ -121,7 +121,12 @@ type Part struct {
 	Monitors []string // monitor names of that family's trace spec that decide this property
 }
 
+// CustomStep is a check that does not fit the case/trace pipeline (e.g. a race-detector run).
+// It returns replay paths of violations, an evidence fragment and whether a tool failed.
+type CustomStep func(tier string, seed int64) (violations []string, evidence map[string]any)
+
 type PropertySpec struct {
+	Custom      []CustomStep
 	ID          string
 	Level       string
 	Parts       []Part
@@ -210,6 +215,16 @@ func CheckProperty(ps PropertySpec, tier string, seed int64) int {
 			fmt.Printf("DRIFT family=%s ... %d cases in total\n", rep.Family, len(rep.Drift))
 		}
 	}
+	var customEv []map[string]any
+	for _, cs := range ps.Custom {
+		vs, ev := cs(tier, seed)
+		customEv = append(customEv, ev)
+		for _, v := range vs {
+			violations++
+			fmt.Printf("VIOLATION property=%s replay=%s\n", ps.ID, v)
+		}
+	}
+	extraEvidence = customEv
 	WriteEvidence(ps, tier, seed, reports, violations, time.Since(t0).Seconds())
 	for _, r := range reports {
 		fmt.Printf("family=%s mc_states=%d mc_distinct=%d tlc_cases=%d replayed=%d extra=%d trace_lines=%d nontrivial=%d drift=%d fails=%d exhaustive=%v selftest=%v wall=%.1fs (mc %.1fs, driver %.1fs, trace %.1fs)\n",
@@ -222,6 +237,8 @@ func CheckProperty(ps PropertySpec, tier string, seed int64) int {
 	fmt.Printf("RESULT property=%s tier=%s held on everything explored\n", ps.ID, tier)
 	return 0
 }
+
+var extraEvidence []map[string]any
 
 // WriteEvidence writes /verif/evidence/<id>.json per EVIDENCE.schema.json.
 func WriteEvidence(ps PropertySpec, tier string, seed int64, reps []*FamilyReport, violations int, wall float64) {
@@ -262,7 +279,7 @@ func WriteEvidence(ps PropertySpec, tier string, seed int64, reps []*FamilyRepor
 			"rule":       ps.Rule,
 			"samples":    samples,
 			"exhaustive": exhaustive,
-			"families":   fams, "drift_cases": drift, "binding_selftest_fired": selftest,
+			"families":   fams, "drift_cases": drift, "binding_selftest_fired": selftest, "other_steps": extraEvidence,
 		},
 		"assumptions": ps.Assumptions,
 		"wall_s":      wall,
